@@ -259,20 +259,20 @@ func (d *Device) handleABSEvent(ie *input.InputEvent) {
 
 		switch {
 		case value <= -0.5:
+			d.AnalogNoteOff(identifier, ie) // first: after a transposition both directions may play the same pitch
 			_, ok := d.analogNoteTracker[identifierNeg]
 			if !ok && analog.Bidirectional { // no note_negative configured: this direction stays silent
 				d.AnalogNoteOn(identifierNeg, analog.NoteNeg, analog.ChannelOffsetNeg, ie)
 			}
-			d.AnalogNoteOff(identifier, ie)
 		case value > -0.49 && value < 0.49:
 			d.AnalogNoteOff(identifier, ie)
 			d.AnalogNoteOff(identifierNeg, ie)
 		case value >= 0.5:
+			d.AnalogNoteOff(identifierNeg, ie)
 			_, ok := d.analogNoteTracker[identifier]
 			if !ok {
 				d.AnalogNoteOn(identifier, analog.Note, analog.ChannelOffset, ie)
 			}
-			d.AnalogNoteOff(identifierNeg, ie)
 		case value <= -0.49: // hysteresis band of the negative direction: the positive one is far from its threshold
 			d.AnalogNoteOff(identifier, ie)
 		case value >= 0.49: // hysteresis band of the positive direction
